@@ -116,3 +116,61 @@ def c11_e2e(tier, rng):
                 "obligation": "C11.assigner_equivariance", "inputs": {"seed": base + k}, "observed": [str(desc)[:600]] + p[:2],
                 "required": "translation / reflection equivariance", "replay_call": "contracts.c_equivariance:replay_equiv"}]}
     return {"cases": done, "bound": "%d derived reads" % n, "violations": [], "samples": [{"seed": base}]}
+
+
+# ---- the terminal-vertex twins of the intron graph: thread_ends on a locus == thread_starts on its mirror image ------------------------------
+def _thread_case(seed):
+    import random, types
+    gm = native.repo_import("src/graph_based_model_construction.py")
+    ig = native.repo_import("src/intron_graph.py")
+    rng = random.Random(seed)
+    C = 100000
+    intron = (5000, 6000)
+    # the real IntronGraph accessors on a hand-filled edge table (no construction heuristics involved)
+    g = ig.IntronGraph.__new__(ig.IntronGraph)
+    g.outgoing_edges, g.incoming_edges = {intron: set()}, {}
+    for _ in range(rng.randint(0, 2)):
+        s_ = 6001 + rng.choice([80, 150, 400])
+        g.outgoing_edges[intron].add((s_, s_ + 500))                      # a following intron
+    for _ in range(rng.randint(0, 2)):
+        g.outgoing_edges[intron].add((ig.VERTEX_polya, 6001 + rng.choice([100, 140, 300, 420, 470])))
+    for _ in range(rng.randint(0, 2)):
+        g.outgoing_edges[intron].add((ig.VERTEX_read_end, 6001 + rng.choice([100, 160, 300, 420, 500])))
+    mi = lambda v: (C - v[1], C - v[0]) if v[0] >= 0 else ({ig.VERTEX_polya: ig.VERTEX_polyt, ig.VERTEX_read_end: ig.VERTEX_read_start}[v[0]], C - v[1])
+    gmir = ig.IntronGraph.__new__(ig.IntronGraph)
+    mintron = (C - intron[1], C - intron[0])
+    gmir.outgoing_edges, gmir.incoming_edges = {}, {mintron: {mi(v) for v in g.outgoing_edges[intron]}}
+    params = types.SimpleNamespace(apa_delta=50, delta=rng.choice([0, 6]))
+    end = 6001 + rng.choice([60, 99, 100, 120, 150, 190, 300, 349, 350, 351, 420, 469, 470, 471, 520, 551, 600])
+    trusted = rng.random() < .5
+    def proc(graph):
+        pp = gm.IntronPathProcessor.__new__(gm.IntronPathProcessor)
+        pp.params, pp.intron_graph = params, graph
+        return pp
+    a = proc(g).thread_ends(intron, end, trusted)
+    b = proc(gmir).thread_starts(mintron, C - end, trusted)
+    problems = []
+    if (a is None) != (b is None) or (a is not None and mi(a) != b):
+        problems.append("thread_ends(%s, end=%d, trusted=%s) over %s = %s, but thread_starts on the mirror image = %s (mirror of %s)"
+                        % (intron, end, trusted, sorted(g.outgoing_edges[intron]), a, b, None if a is None else mi(a)))
+    return problems
+
+
+def replay_thread(d):
+    p = _thread_case(d["inputs"]["seed"])
+    return (not p), "seed %s: %s" % (d["inputs"]["seed"], p or "mirror twins agree")
+
+
+@bounded("C11.thread_twins", ["C11"], shards=4, note="IntronPathProcessor.thread_ends on a hand-filled real IntronGraph (following introns, polyA and "
+         "read-end vertices around the apa_delta / delta thresholds, trusted and untrusted ends) against thread_starts on the mirror image")
+def c11_thread(tier, rng):
+    n = 4000 if tier == "quick" else 100000
+    base = rng.randrange(10 ** 9)
+    for k in range(n):
+        p = _thread_case(base + k)
+        if p:
+            return {"cases": k + 1, "bound": "%d configurations" % n, "violations": [{
+                "obligation": "C11.thread_twins", "inputs": {"seed": base + k}, "observed": p[:2],
+                "required": "terminal vertex chosen on a locus = mirror of the one chosen on the mirrored locus",
+                "replay_call": "contracts.c_equivariance:replay_thread"}]}
+    return {"cases": n, "bound": "%d random configurations" % n, "violations": [], "samples": [{"seed": base}]}
